@@ -100,3 +100,52 @@ def run(P, C):
     a, b = loc[0].alpha(loc[0].body)[0], ref[0].alpha(ref[0].body)[0]
     C.ob("GE-3", "bspline@splineutil.c", "clone-of-reference", a == b, loc[0].where(),
          "the fitter's private bspline() is %s the library's reference bspline()" % ("identical to" if a == b else "NOT identical to"))
+
+
+def ge4(P, C):
+    """GE-4: slicemultiply leaves the n-d array describing the product on every successful return."""
+    C.rule("GE-4", "slicemultiply stores the product's entry count (a->rows) and the new range of the multiplied dimension (a->ranges[dim] = "
+           "b->ncol) on every path to a `return 0`: a successful return always describes the product, also when the product is empty", floor=1)
+    f = P.one("slicemultiply", file_endswith="splineutil.c")
+    a_id, dim_id, b_id = f.params[0]["id"], f.params[2]["id"], f.params[1]["id"]
+
+    def field_store(i):
+        ap = ts.assign_parts(f, i)
+        if not ap or ap[1] is None or f.nodes[i].get("op") != "=":
+            return None
+        l = f.strip(ap[0])
+        sub = None
+        if f.k(l) == "ArraySubscriptExpr":
+            sub = f.strip(f.nodes[l]["ch"][1])
+            l = f.strip(f.nodes[l]["ch"][0])
+        if f.k(l) == "MemberExpr" and f.nodes[l].get("ch") and f.k(f.strip(f.nodes[l]["ch"][0])) == "DeclRefExpr" and \
+                f.nodes[f.strip(f.nodes[l]["ch"][0])]["decl"]["id"] == a_id:
+            m = f.nodes[l]["member"]
+            if m == "rows" and sub is None:
+                return "rows"
+            if m == "ranges" and sub is not None and f.k(sub) == "DeclRefExpr" and f.nodes[sub]["decl"]["id"] == dim_id:
+                r = f.strip(ap[1])
+                if f.k(r) == "MemberExpr" and f.nodes[r]["member"] == "ncol" and f.k(f.strip(f.nodes[r]["ch"][0])) == "DeclRefExpr" and \
+                        f.nodes[f.strip(f.nodes[r]["ch"][0])]["decl"]["id"] == b_id:
+                    return "ranges"
+        return None
+
+    def transfer(st, e, b, j):
+        if e.get("kind") != "stmt":
+            return st
+        k = field_store(e["n"])
+        return st | {k} if k else st
+    IN, OUT = core.dataflow(f, frozenset(), transfer, lambda x, y: x & y)
+    pos = f.node_positions()
+    rets = [i for i in f.walk() if f.k(i) == "ReturnStmt" and f.nodes[i].get("value", -1) >= 0 and f.nodes[f.strip(f.nodes[i]["value"])].get("cv") == 0]
+    bad = []
+    for r in rets:
+        if r not in pos:
+            continue
+        st = core.state_before(f, IN, transfer, *pos[r])
+        if st is not None and not {"rows", "ranges"} <= st:
+            bad.append((r, sorted({"rows", "ranges"} - st)))
+    C.ob("GE-4", "slicemultiply", "shape-updated-on-success", bool(rets) and not bad, f.loc(bad[0][0]) if bad else f.where(),
+         ("%d successful return(s), each after a->rows and a->ranges[dim] = b->ncol were stored" % len(rets)) if not bad else
+         "`return 0` at %s is reached without storing %s: the array still describes the operand, and the caller goes on as if it were the product"
+         % (f.loc(bad[0][0]), " and ".join("a->" + x for x in bad[0][1])))
